@@ -355,3 +355,67 @@ def pin_comparisons(ctx, inst, body, table):
         hits = [nid for (nid, r, _) in roots if r.extra == op and lp(r.a[0]) and rp(r.a[1])]
         ctx.check(len(hits) == 1, inst, "PIN", body.path, desc + " (found %d)" % len(hits), body.where(hits[0]) if hits else None,
                   None if len(hits) == 1 else {"comparisons": [r.extra + "(" + r.a[0].show()[:40] + ", " + r.a[1].show()[:40] + ")" for (_, r, _) in roots][:12]})
+
+
+
+def check_scrub_release_extent_sum(ctx, inst):
+    """release_scrubbed_allocations hands a run of adjacent failed allocations back as one range: the length released must
+    be the sum of the *members'* own extent lengths (start = first member, every later member adds its own sectors_needed)"""
+    from feoxlint import bounds as B
+    b = ctx.fn("write_buffer::release_scrubbed_allocations", inst)
+    if b is None:
+        return
+    rs = ctx.sites(b, R.call("FreeSpaceManager::release_sectors"), inst, exact=1)
+    f = B.flow(b)
+    for r in rs:
+        n = b.nodes[r]
+        start = f.operand(n.ev["args"][1], r)
+        cnt = f.operand(n.ev["args"][2], r)
+        while cnt.k == "cast":
+            cnt = cnt.a[0]
+        ok = cnt.k == "bin" and cnt.extra == "Sub" and cnt.a[0].k == "phi" and cnt.a[1].key() == start.key()
+        ctx.check(ok, inst, "PROVENANCE", b.path, "the released length is (end of the run) - (start sector of the run)", b.where(r), {"count": cnt.show()[:120]})
+        if not ok:
+            continue
+        phi = cnt.a[0]
+        ent = f.phis.get(phi.key())
+        ops = ent[1] if ent else []
+        ctx.check(len(ops) == 2, inst, "anchor", b.path, "the run end has an initial value and one accumulation step", b.where(r))
+
+        def elem_index(x):
+            """(index expression, trailing field) of `ordered[i].1.sectors_needed`"""
+            while x.k == "cast":
+                x = x.a[0]
+            if not (x.k == "field" and x.extra[1] == "sectors_needed"):
+                return None
+            for y in x.walk():
+                if y.k == "call" and (y.extra.endswith("::index") or y.extra.endswith("::index_mut")) and len(y.a) == 2:
+                    return y.a[1]
+                if y.k == "index" and len(y.a) == 2:
+                    return y.a[1]
+            return None
+        for o in ops:
+            if not (o.k == "bin" and o.extra == "Add"):
+                ctx.fail(inst, "PROVENANCE", b.path, "the run end is built by additions only", b.where(r), {"value": o.show()[:100]})
+                continue
+            if o.a[0].key() == phi.key() or o.a[1].key() == phi.key():
+                x = o.a[1] if o.a[0].key() == phi.key() else o.a[0]
+                ix = elem_index(x)
+                cursor_ok = False
+                if ix is not None and ix.k == "phi":
+                    lc = ix.extra[0]
+                    for d in b.defs.get(lc, []):
+                        v = f.nodeval(d)
+                        if v.k == "bin" and v.extra == "Add" and any(z.k == "phi" and z.extra[0] == lc for z in v.a) and any(B._const_val(z) == 1 for z in v.a):
+                            cursor_ok = True
+                ctx.check(cursor_ok, inst, "PROVENANCE", b.path, "each further member of a run adds its own extent length (indexed by the advancing cursor)", b.where(r),
+                          {"addend": x.show()[:120]})
+            else:
+                base, x = (o.a[0], o.a[1])
+                ix = elem_index(x)
+                six = None
+                for y in start.walk():
+                    if y.k == "call" and y.extra.endswith("::index") and len(y.a) == 2:
+                        six = y.a[1]
+                ctx.check(base.key() == start.key() and ix is not None and six is not None and ix.key() == six.key(), inst, "PROVENANCE", b.path,
+                          "the run starts as (first member's sector) + (first member's extent length)", b.where(r), {"init": o.show()[:120]})
